@@ -10,6 +10,7 @@ import ALV.Lemmas.C04Pipeline
 import ALV.Lemmas.C04Hist
 import ALV.Lemmas.C04Cx
 import ALV.Lemmas.C04Ext
+import ALV.Lemmas.C04Src
 import ALV.Common.Audit
 
 set_option linter.unusedSectionVars false
@@ -976,6 +977,67 @@ example : gaussHistModel
      .call 0 0 0 (some 1) 0, .setNums 1 [0], .call 1 0 0 none 0, .take 0 2, .take 1 3]
     = [.stored, .stored, .ok, .stored, .stored, .ok, .stored, .ok, .outs [0, 1] false,
        .outs [1, ⟨1, 1⟩, gi] false] := by decide +kernel
+
+/-! ### C04.19 the model is what the source says NOW
+
+`ALV/Gen/C04Src.lean` is rewritten on every check by the translator `harness/props/c04_tr.py` from the text of
+`LinearFilter.__call__` (read with `ast`): the two coefficient loops with their `if / elif` chains (tests, constants
+and format strings in the order of the source), the `len(data_sum) == 0` test, the gain chain, the line templates of the
+generated generator with their `xrange` bounds, the memory block and the two guards with the exceptions they raise.  The
+theorems below say that these regenerated definitions ARE the hand-written model, so every theorem above is a theorem about
+the code as it reads now; an edit of the method that changes its meaning breaks one of them on the next run. -/
+section src
+open ALV.C04.Py
+variable {α : Type}
+
+/-- **C04.19a**: the numerator loop (accumulating `data_sum.append(...)` over `iteritems(numdict)`) builds `numAtoms`. -/
+theorem src_numLoop_is_model [Neg α] [OfNat α 0] [OfNat α 1] [DecidableEq α] (b : List α) (st : St α) :
+    forItems ALV.Gen.C04.numBody 0 b st = ⟨st.data_sum ++ numAtoms 0 b, st.gain⟩ :=
+  SrcLemmas.numLoop b 0 st
+
+/-- **C04.19b**: the denominator loop: delay 0 binds `gain`, the other delays append `denAtoms`. -/
+theorem src_denLoop_is_model [Neg α] [OfNat α 0] [OfNat α 1] [DecidableEq α] (a : List α) (st : St α) :
+    forItems ALV.Gen.C04.denBody 0 a st = ⟨st.data_sum ++ denAtoms 1 a.tail, a.headD st.gain⟩ :=
+  SrcLemmas.denLoop a st
+
+/-- **C04.19c** (`src_compile_is_model`): the regenerated source builder is the model's `compile`. -/
+theorem src_compile_is_model [Neg α] [OfNat α 0] [OfNat α 1] [DecidableEq α] :
+    (ALV.Gen.C04.compile : List α → List α → α → IR α) = compile := by
+  funext b a zero; exact SrcLemmas.compile_eq b a zero
+
+/-- **C04.19d** (`src_memoryOf_is_model`): the regenerated memory block is the model's `memoryOf`. -/
+theorem src_memoryOf_is_model : (ALV.Gen.C04.memoryOf : α → Nat → Mem α → List α) = memoryOf := by
+  funext zero lm mem; exact SrcLemmas.memoryOf_eq zero lm mem
+
+/-- **C04.19e** (`src_call_is_model`): the regenerated method (guards in their order, lengths, memory, generated source,
+run) is the model's `call`. -/
+theorem src_call_is_model [Add α] [Mul α] [Sub α] [Neg α] [Div α] [OfNat α 0] [OfNat α 1] [DecidableEq α] :
+    (ALV.Gen.C04.call : Terms α → Terms α → Mem α → α → List α → Except Err (List α)) = call := by
+  funext num den mem zero xs; exact SrcLemmas.call_eq num den mem zero xs
+
+/-- **C04.19f** (`src_call_eq_spec`): C04.6 stated about the regenerated method. -/
+theorem src_call_eq_spec (num den : Terms K) (mem : Mem K) (zero : K) (xs : List K)
+    (hc : ∀ kv ∈ num ++ den, 0 ≤ kv.1) (h0 : coefAt den 0 ≠ 0)
+    (hnz : ¬ ((∀ c ∈ dense num, c = 0) ∧ (∀ c ∈ (dense den).tail, c = 0))) :
+    ALV.Gen.C04.call num den mem zero xs
+      = .ok (fspec (dense num) (dense den).tail (coefAt den 0) zero
+              (memoryOf zero (dense den).tail.length mem) [] xs) := by
+  rw [src_call_is_model]; exact call_eq_spec num den mem zero xs hc h0 hnz
+
+/-- **C04.19g**: the refusals, stated about the regenerated method. -/
+theorem src_call_refuses (num den : Terms K) (mem : Mem K) (zero : K) (xs : List K) :
+    ((∃ kv ∈ num ++ den, kv.1 < 0) → ALV.Gen.C04.call num den mem zero xs = .error .valueError)
+    ∧ ((∀ kv ∈ num ++ den, 0 ≤ kv.1) → coefAt den 0 = 0 →
+        ALV.Gen.C04.call num den mem zero xs = .error .zeroDivision) := by
+  rw [src_call_is_model]
+  exact ⟨noncausal num den mem zero xs, zero_gain_refuses num den mem zero xs⟩
+
+end src
+
+/-- the regenerated method run on 1 / (1 - 2 z^-1) with memory [3], and on a non-causal filter -/
+example : ALV.Gen.C04.call [((0 : Int), (1 : Rat))] [(0, 1), (1, -2)] (Mem.iter [3]) 0 [1, 1] = .ok [7, 15]
+    ∧ ALV.Gen.C04.call [((-1 : Int), (1 : Rat))] [(0, 1)] Mem.none 0 [1] = .error .valueError := by
+  decide +kernel
 end ALV.Props.C04
 
 #write_audit "C04"
